@@ -42,6 +42,13 @@
 //!     witness limit below the witness size, are counted and skipped for this clause).
 //! Don't-cares: which error `into_ready` returns; `Ready` contents; how gas itself is
 //! metered.
+//!
+//! Keys: `C18:<api>:<class>`. Refund mismatches are split into `C18:refund_fee:value`
+//! (min_gas+used is a u64) and `C18:refund_fee:value:min_gas+used>u64::MAX` (the sum
+//! leaves u64). On the unchanged tree the latter fires: `refund_fee` computes
+//! `min_gas.saturating_add(used_gas)`, so the fee is under-estimated and a refund that
+//! is too large (or Some(0) instead of None) is returned, e.g. min_gas 280, used
+//! u64::MAX-279, price 1, factor 1, limit u64::MAX -> Some(0), exact fee 2^64 > limit.
 
 use fuel_tx::{
     field::{
@@ -55,7 +62,6 @@ use fuel_tx::{
     Create,
     CreateMetadata,
     FeeParameters,
-    FeeParametersV1,
     GasCosts,
     Input,
     Output,
@@ -343,10 +349,7 @@ fn env() -> Env {
     let mut lenient = ConsensusParameters::standard();
     lenient.set_tx_params(TxParameters::DEFAULT.with_max_gas_per_tx(MAX).with_max_size(1 << 24));
     lenient.set_gas_costs(GasCosts::free());
-    lenient.set_fee_params(FeeParameters::V1(FeeParametersV1 {
-        gas_price_factor: 1,
-        gas_per_byte: 0,
-    }));
+    lenient.set_fee_params(FeeParameters::DEFAULT.with_gas_price_factor(1).with_gas_per_byte(0));
     lenient.set_base_asset_id(AssetId::BASE);
     lenient.set_block_gas_limit(MAX);
     lenient.set_privileged_address(owner());
@@ -375,10 +378,7 @@ struct Cfg {
 }
 
 fn fee_params(c: &Cfg) -> FeeParameters {
-    FeeParameters::V1(FeeParametersV1 {
-        gas_price_factor: c.gas_price_factor,
-        gas_per_byte: c.gas_per_byte,
-    })
+    FeeParameters::DEFAULT.with_gas_price_factor(c.gas_price_factor).with_gas_per_byte(c.gas_per_byte)
 }
 
 fn policies(tip: Option<u64>, wl: Option<u64>, limit: u64) -> Policies {
@@ -510,7 +510,7 @@ const LABELS: &[&str] = &[
     "checked_from_tx:None (a fee exceeds u64)",
     "refund:Some(>0)",
     "refund:Some(0)",
-    "refund:None (fee above limit)",
+    "refund:None",
     "refund:min_gas+used exceeds u64",
     "into_ready:Ok",
     "into_ready:Ok at fee_limit == max_fee",
@@ -718,7 +718,7 @@ fn check_cfg(env: &Env, c: &Cfg, acc: &mut Acc, viol: &mut dyn FnMut(String, Str
         match got {
             Some(0) => acc.hit("refund:Some(0)"),
             Some(_) => acc.hit("refund:Some(>0)"),
-            None => acc.hit("refund:None (fee above limit)"),
+            None => acc.hit("refund:None"),
         }
         if *got != exp {
             let key = if overflow {
@@ -1074,8 +1074,7 @@ fn explore(ctx: &Ctx) {
                 ctx.violation(k, w, case);
             }
             for (k, cnt) in acc.more {
-                // occurrence counts are informational; bounded so a broken tree does not stall the merge
-                for _ in 0..cnt.min(256) {
+                for _ in 0..cnt {
                     ctx.violation(k.clone(), String::new(), Value::Null);
                 }
             }
